@@ -13,7 +13,8 @@ use vharness::rv::{obs, rv_term};
 use rand::seq::SliceRandom;
 use rand::Rng as _;
 use redis_sim::redis::SDS;
-use redis_sim::replication::anti_entropy::{KeyDigest, StateDigest};
+use redis_sim::redis::Command;
+use redis_sim::replication::anti_entropy::{AntiEntropyConfig, AntiEntropyManager, KeyDigest, StateDigest};
 use redis_sim::replication::lattice::{GCounter, GSet, LamportClock, ORSet, PNCounter, ReplicaId, VectorClock};
 use redis_sim::replication::state::{CrdtValue, ReplicatedValue, ReplicationDelta, ShardReplicaState};
 use redis_sim::replication::ConsistencyLevel;
@@ -251,13 +252,13 @@ fn val_term(v: &ReplicatedValue) -> String {
     if let Some(l) = v.lww() {
         if l.timestamp == v.timestamp && v.vector_clock.is_none() && v.expiry_ms.is_none() && v.replication_factor.is_none() {
             if let Some(t) = l.value.as_ref().and_then(|x| bytes_term(x.as_bytes())) {
-                return format!("(VB {} {} {} {})", t, v.timestamp.time, v.timestamp.replica_id.0, cbool(l.tombstone));
+                return format!("(VB {} {} {} {})", t, num(v.timestamp.time), num(v.timestamp.replica_id.0), cbool(l.tombstone));
             }
             return format!(
                 "(VL {} {} {} {})",
                 copt(&l.value, |x| val_sym(x.as_bytes())),
-                v.timestamp.time,
-                v.timestamp.replica_id.0,
+                num(v.timestamp.time),
+                num(v.timestamp.replica_id.0),
                 cbool(l.tombstone)
             );
         }
@@ -347,6 +348,122 @@ fn digest_oracle(out: &mut Out, i: u64, tag: &str, a: &Map, b: &Map, da: &StateD
     }
 }
 
+/// Stamp fields: mostly small, sometimes at the u64 extremes / 2^63 apart / equal mod 64.
+/// (time stays below u64::MAX - 2^20: apply_remote_delta advances the receiver's clock to
+/// max + 1 per delta, which is C08's overflow, not this property's.)
+fn stamp(rng: &mut Rng, small_time: u64) -> LamportClock {
+    let time = if rng.gen_bool(0.12) {
+        *[0u64, 1 << 32, (1 << 63) - 1, 1 << 63, (1 << 63) + 1, u64::MAX - (1 << 21), u64::MAX - (1 << 21) - 1].choose(rng).unwrap()
+    } else {
+        small_time
+    };
+    let rid = if rng.gen_bool(0.12) {
+        *[0u64, 64, 65, 128, 1 << 32, 1 << 63, u64::MAX - 1, u64::MAX].choose(rng).unwrap()
+    } else {
+        rng.gen_range(1..4)
+    };
+    LamportClock { time, replica_id: ReplicaId(rid) }
+}
+
+/// what get_keys_in_buckets / handle_sync_request must return for `m`: the entries in
+/// iteration order whose bucket is requested (all if None), the first `limit` of them
+fn expected_keys(m: &Map, buckets: Option<&[usize]>, depth: usize, limit: usize) -> Vec<String> {
+    m.iter()
+        .filter(|(k, v)| buckets.map_or(true, |b| b.contains(&bucket_of_key(k, v, depth))))
+        .take(limit)
+        .map(|(k, _)| k.clone())
+        .collect()
+}
+fn deltas_oracle(out: &mut Out, i: u64, tag: &str, m: &Map, ds: &[ReplicationDelta], want: &[String], src: ReplicaId) {
+    out.impl_checks += 1;
+    let got: Vec<&String> = ds.iter().map(|d| &d.key).collect();
+    if got != want.iter().collect::<Vec<_>>() {
+        out.violation(i, &format!("{}: wrong keys (expected the first `limit` entries of the requested buckets in iteration order)", tag), json!({"got": got, "want": want}));
+        return;
+    }
+    for d in ds {
+        if d.source_replica != src || m.get(&d.key).map(obs) != Some(obs(&d.value)) || rv_term(&d.value, false) != rv_term(&m[&d.key], false) {
+            out.violation(i, &format!("{}: a delta does not carry the sender's current value / replica id", tag), json!({"key": d.key, "delta": brief(&d.value), "held": m.get(&d.key).map(brief)}));
+            return;
+        }
+    }
+}
+/// every field of a StateDigest against the map it was built from
+fn digest_fields_oracle(out: &mut Out, i: u64, tag: &str, m: &Map, d: &StateDigest, rid: ReplicaId, generation: u64, depth: usize) {
+    out.impl_checks += 1;
+    let maxts = m.values().map(|v| v.timestamp.time).max().unwrap_or(0);
+    let mut per: BTreeMap<usize, (usize, u64)> = BTreeMap::new();
+    for (k, v) in m {
+        let e = per.entry(bucket_of_key(k, v, depth)).or_insert((0, 0));
+        e.0 += 1;
+        e.1 = e.1.max(v.timestamp.time);
+    }
+    let mut bad = d.replica_id != rid || d.generation != generation || d.key_count != m.len() || d.max_timestamp != maxts || d.buckets.len() != (1usize << depth);
+    for (j, b) in d.buckets.iter().enumerate() {
+        let (c, t) = per.get(&j).copied().unwrap_or((0, 0));
+        bad |= b.count != c || b.max_timestamp != t || (c == 0 && b.hash != 0);
+    }
+    if bad {
+        out.violation(i, &format!("{}: a StateDigest field (replica_id, generation, key_count, max_timestamp, bucket count/max) does not describe the map", tag),
+            json!({"keys": m.len(), "key_count": d.key_count, "max": maxts, "max_timestamp": d.max_timestamp, "buckets": d.buckets.len()}));
+    }
+}
+
+/// O3: after a covering round that fired, every key of a divergent bucket holds the merge of
+/// the prior values on both sides, other keys are untouched, Compatible pairs agree and a
+/// second digest exchange finds nothing.
+fn merged_oracle(out: &mut Out, i: u64, tag: &str, a0: &Map, b0: &Map, a1: &Map, b1: &Map, dv: &[usize], depth: usize, da2: &StateDigest, db2: &StateDigest) {
+    out.impl_checks += 1;
+    let keys: BTreeSet<&String> = a0.keys().chain(b0.keys()).collect();
+    let mut any_incompatible = false;
+    for k in keys {
+        let (x, y) = (a0.get(k), b0.get(k));
+        let bk = bucket_of_key(k, x.or(y).unwrap(), depth);
+        let (ea, eb): (Option<ReplicatedValue>, Option<ReplicatedValue>) = if dv.contains(&bk) {
+            match (x, y) {
+                (Some(x), Some(y)) => (Some(x.merge(y)), Some(y.merge(x))),
+                (Some(x), None) => (Some(x.clone()), Some(x.clone())),
+                (None, Some(y)) => (Some(y.clone()), Some(y.clone())),
+                _ => unreachable!(),
+            }
+        } else {
+            (x.cloned(), y.cloned())
+        };
+        let got = (a1.get(k).map(obs), b1.get(k).map(obs));
+        let want = (ea.as_ref().map(obs), eb.as_ref().map(obs));
+        if got != want {
+            out.violation(i, &format!("{}: after a covering sync round a key does not hold merge(prior A, prior B) (or an untouched key changed)", tag),
+                json!({"key": k, "bucket": bk, "divergent": dv, "a": x.map(brief), "b": y.map(brief), "got": [a1.get(k).map(brief), b1.get(k).map(brief)], "want": [ea.as_ref().map(brief), eb.as_ref().map(brief)]}));
+            return;
+        }
+        // the two sides agree afterwards only if the prior values are Compatible (C07):
+        // equal LWW stamps on different registers keep "self" on each side
+        // (and values of different kinds under equal outer stamps keep "self" as well)
+        let incompatible = match (x, y) {
+            (Some(vx), Some(vy)) => match (vx.lww(), vy.lww()) {
+                (Some(p), Some(q)) => p.timestamp == q.timestamp && obs(vx) != obs(vy),
+                _ => vx.crdt_type() != vy.crdt_type() && vx.timestamp == vy.timestamp,
+            },
+            _ => false,
+        };
+        if incompatible {
+            any_incompatible = true;
+            continue;
+        }
+        if dv.contains(&bk) && got.0 != got.1 {
+            out.violation(i, &format!("{}: after a covering sync round the two sides differ on a key of a divergent bucket", tag),
+                json!({"key": k, "a": x.map(brief), "b": y.map(brief), "a_after": a1.get(k).map(brief), "b_after": b1.get(k).map(brief)}));
+            return;
+        }
+    }
+    if any_incompatible {
+        out.count("round:incompatible-pair (equal stamps, different strings)");
+    } else if da2.differs_from(db2) || !da2.divergent_buckets(db2).is_empty() {
+        out.violation(i, &format!("{}: a second digest exchange after a covering sync round still finds divergence", tag),
+            json!({"divergent_before": dv, "divergent_after": da2.divergent_buckets(db2)}));
+    }
+}
+
 fn main() {
     let a: Vec<String> = std::env::args().collect();
     let args = &Args::parse(&a[1..]);
@@ -358,6 +475,7 @@ fn main() {
         let mut rng = case_rng(args.seed, i);
         let scen = *[0u32, 0, 0, 1, 1, 2, 2, 2, 3, 4, 4, 6, 7, 7, 8, 8].choose(&mut rng).unwrap();
         let scen = if rng.gen_bool(0.004) { 5 } else { scen };
+        let scen = if rng.gen_bool(args.get("big", 5) as f64 / 10000.0) { 9 } else { scen };
         let plain = rng.gen_bool(0.45);
         let nkeys = *[1usize, 3, 6, 10, 16, 24, 40].choose(&mut rng).unwrap();
         let steps = rng.gen_range(nkeys..(3 * nkeys + 6));
@@ -365,11 +483,16 @@ fn main() {
         if rng.gen_bool(0.03) {
             depth = 8;
         }
+        if rng.gen_bool(0.0015) {
+            depth = 12; // 4096 buckets
+        }
         let mut limit: usize = 1000;
         let h = history(&mut rng, plain, nkeys, steps, if scen == 2 || scen == 4 { 0.3 } else { 0.15 });
         let Hist { st, log } = h;
         let mut it = st.into_iter();
-        let (s0, s1) = (it.next().unwrap(), it.next().unwrap());
+        let (s0, s1, s2) = (it.next().unwrap(), it.next().unwrap(), it.next().unwrap());
+        let third: Map = s2.replicated_keys;
+        let first_two: Option<(Map, Map)> = if plain && scen != 5 && scen != 9 && rng.gen_bool(0.3) { Some((s0.replicated_keys.clone(), s1.replicated_keys.clone())) } else { None };
         let (ma, mb, name): (Map, Map, &str) = match scen {
             0 => {
                 let b = rebuild_shuffled(&mut rng, &s0.replicated_keys);
@@ -417,7 +540,8 @@ fn main() {
                     let k = key_name(60 + j);
                     let len = LENS[rng.gen_range(0..LENS.len())];
                     let seed: u8 = rng.gen();
-                    let ts = LamportClock { time: rng.gen_range(1..9), replica_id: ReplicaId(rng.gen_range(1..4)) };
+                    let st = rng.gen_range(1..9);
+                    let ts = stamp(&mut rng, st);
                     let va = longval(len, seed);
                     let mut vb = va.clone();
                     let variant = rng.gen_range(0..6);
@@ -443,6 +567,17 @@ fn main() {
                     if va == vb { out.count("long:equal"); }
                     x.insert(k.clone(), ReplicatedValue::with_value(SDS::new(va), ts));
                     y.insert(k, ReplicatedValue::with_value(SDS::new(vb), ts));
+                }
+                if rng.gen_bool(0.25) {
+                    // a long key (key hash over several SipHash blocks), same or different short values
+                    let kl = *[7usize, 8, 9, 15, 16, 17, 63, 64, 65, 255, 256, 257, 1024].choose(&mut rng).unwrap();
+                    let k: String = (0..kl).map(|j| (b'a' + ((j * 7 + kl) % 26) as u8) as char).collect();
+                    let ts = stamp(&mut rng, 3);
+                    let va = VALS[rng.gen_range(0..VALS.len())].to_vec();
+                    let vb = if rng.gen_bool(0.5) { va.clone() } else { VALS[rng.gen_range(0..VALS.len())].to_vec() };
+                    x.insert(k.clone(), ReplicatedValue::with_value(SDS::new(va), ts));
+                    if rng.gen_bool(0.8) { y.insert(k, ReplicatedValue::with_value(SDS::new(vb), ts)); }
+                    out.count("long:key");
                 }
                 (x, y, "long-equal-stamp")
             }
@@ -475,7 +610,9 @@ fn main() {
                     let recs: Vec<ReplicatedValue> = (0..nk)
                         .map(|_| {
                             let val: Vec<u8> = if rng.gen_bool(0.15) { longval(LENS[rng.gen_range(0..LENS.len())], rng.gen()) } else { VALS[rng.gen_range(0..VALS.len())].to_vec() };
-                            let ts = LamportClock { time: if same_time { t0 } else { rng.gen_range(1..6) }, replica_id: ReplicaId(rng.gen_range(1..4)) };
+                            let st = if same_time { t0 } else { rng.gen_range(1..6) };
+                            let mut ts = stamp(&mut rng, st);
+                            if same_time { ts.time = t0; }
                             ReplicatedValue::with_value(SDS::new(val), ts)
                         })
                         .collect();
@@ -493,6 +630,20 @@ fn main() {
                     }
                 }
                 (x, y, "records-permuted-in-bucket")
+            }
+            9 => {
+                // AntiEntropyConfig::default(): depth 8, max_keys_per_sync 1000; n = 999 / 1000 / 1001 / 1100 keys
+                depth = 8;
+                limit = 1000;
+                let n = *[999usize, 1000, 1001, 1100].choose(&mut rng).unwrap();
+                let mut x: Map = HashMap::new();
+                for j in 0..n {
+                    let ts = LamportClock { time: 1 + (j as u64 % 7), replica_id: ReplicaId(1 + (j as u64 % 3)) };
+                    x.insert(format!("x{}", j), ReplicatedValue::with_value(SDS::new(VALS[j % VALS.len()].to_vec()), ts));
+                }
+                let y: Map = if rng.gen_bool(0.5) { HashMap::new() } else { x.iter().filter(|(k, _)| k.len() % 2 == 0).map(|(k, v)| (k.clone(), v.clone())).collect() };
+                out.count(&format!("default-config:{}-keys", n));
+                (x, y, "default-config-1000")
             }
             _ => (s0.replicated_keys, HashMap::new(), "panic-depth"),
         };
@@ -527,6 +678,14 @@ fn main() {
             n.anti_entropy.config.merkle_tree_depth = depth;
             n.anti_entropy.config.max_keys_per_sync = limit;
         }
+        // a replica's clock dominates every stamp it stores (C08's invariant): without this the
+        // local writes of O7 could re-issue a stamp that already sits in the injected state
+        {
+            let top = sim.nodes.iter().flat_map(|n| n.replica_state.replicated_keys.values()).flat_map(|v| vharness::rv::all_times(v)).max().unwrap_or(0);
+            for n in sim.nodes.iter_mut() {
+                n.replica_state.lamport_clock.time = top;
+            }
+        }
         let a0: Map = sim.nodes[0].replica_state.replicated_keys.clone();
         let b0: Map = sim.nodes[1].replica_state.replicated_keys.clone();
         let la = entries_term(&sim.nodes[0].replica_state.replicated_keys);
@@ -535,10 +694,95 @@ fn main() {
         let db = sim.nodes[1].generate_digest();
         let dif = da.differs_from(&db);
         let dv = da.divergent_buckets(&db);
+        let (na, nb) = (keys_in(&a0, &dv, depth), keys_in(&b0, &dv, depth));
+        if scen == 4 && rng.gen_bool(0.5) && na.max(nb) >= 1 {
+            // the limit exactly at, one below, one above the number of keys to send
+            limit = (na.max(nb) + rng.gen_range(0..3usize)).saturating_sub(1).max(1);
+            for n in sim.nodes.iter_mut() {
+                n.anti_entropy.config.max_keys_per_sync = limit;
+            }
+            out.count(&format!("limit:boundary{:+}", limit as i64 - na.max(nb) as i64));
+        }
         let sa = sim.nodes[0].anti_entropy.get_keys_in_buckets(&sim.nodes[0].replica_state.replicated_keys, &dv);
         let sb = sim.nodes[1].anti_entropy.get_keys_in_buckets(&sim.nodes[1].replica_state.replicated_keys, &dv);
-        let (na, nb) = (keys_in(&a0, &dv, depth), keys_in(&b0, &dv, depth));
         let covering = na <= limit && nb <= limit;
+
+        // ---- O8: every field of the digests and of the deltas
+        digest_fields_oracle(&mut out, i, "digest A", &sim.nodes[0].replica_state.replicated_keys, &da, sim.nodes[0].replica_id, sim.nodes[0].anti_entropy.generation, depth);
+        digest_fields_oracle(&mut out, i, "digest B", &sim.nodes[1].replica_state.replicated_keys, &db, sim.nodes[1].replica_id, sim.nodes[1].anti_entropy.generation, depth);
+        let want_a = expected_keys(&sim.nodes[0].replica_state.replicated_keys, Some(&dv), depth, limit);
+        let want_b = expected_keys(&sim.nodes[1].replica_state.replicated_keys, Some(&dv), depth, limit);
+        deltas_oracle(&mut out, i, "get_keys_in_buckets(A)", &a0, &sa, &want_a, sim.nodes[0].replica_id);
+        deltas_oracle(&mut out, i, "get_keys_in_buckets(B)", &b0, &sb, &want_b, sim.nodes[1].replica_id);
+
+        // ---- O9: divergent_buckets between digests of different depth (surplus arms)
+        let depth2: usize = rng.gen_range(0..5);
+        let dbx = StateDigest::from_state(&sim.nodes[1].replica_state.replicated_keys, sim.nodes[1].replica_id, 0, depth2);
+        let dvx = da.divergent_buckets(&dbx);
+        let dvy = dbx.divergent_buckets(&da);
+        {
+            out.impl_checks += 1;
+            let common = da.buckets.len().min(dbx.buckets.len());
+            let mut want: Vec<usize> = (0..common).filter(|&j| da.buckets[j] != dbx.buckets[j]).collect();
+            let longer = if da.buckets.len() > common { &da.buckets } else { &dbx.buckets };
+            want.extend((common..longer.len()).filter(|&j| longer[j].count > 0));
+            if dvx != want || dvy != want {
+                out.violation(i, "divergent_buckets between digests of different depth: not (differing common buckets, then non-empty surplus buckets)", json!({"depth": depth, "depth2": depth2, "a_vs_b": dvx, "b_vs_a": dvy, "want": want}));
+            }
+        }
+
+        // ---- O5: the message API on two managers (process_peer_digest, create_sync_request,
+        //      handle_sync_request with and without requested buckets, should_sync, heal)
+        {
+            out.impl_checks += 1;
+            let (r1, r2) = (ReplicaId(1), ReplicaId(2));
+            let cfg = AntiEntropyConfig { sync_interval_ms: 1000, max_keys_per_sync: limit, merkle_tree_depth: depth, auto_sync_on_heal: true };
+            let mut m1 = AntiEntropyManager::new(r1, cfg.clone());
+            let mut m2 = AntiEntropyManager::new(r2, cfg);
+            for _ in 0..rng.gen_range(0..3) { m1.on_local_write(); }
+            let t0: u64 = rng.gen_range(0..5000);
+            let d1 = m1.generate_digest(&a0);
+            let d2 = m2.generate_digest(&b0);
+            let mut bad: Vec<String> = Vec::new();
+            if d1.root_hash != da.root_hash || d1.buckets != da.buckets || d2.root_hash != db.root_hash || d2.buckets != db.buckets { bad.push("generate_digest differs between two managers on the same content".into()); }
+            if d1.generation != m1.generation || d1.replica_id != r1 { bad.push("digest generation/replica_id".into()); }
+            if !m1.should_sync(r2, t0) { bad.push("should_sync false for a peer never synced".into()); }
+            let res = m1.process_peer_digest(d2.clone(), &d1);
+            if res.is_some() != dif || res.clone().map_or(false, |v| v != dv) { bad.push(format!("process_peer_digest = {:?}, differs_from = {}, divergent_buckets = {:?}", res, dif, dv)); }
+            if m1.divergent_peers.contains(&r2) != dif || m1.peer_digests.get(&r2).map(|d| d.root_hash) != Some(d2.root_hash) { bad.push("process_peer_digest bookkeeping (divergent_peers / peer_digests)".into()); }
+            let req = m1.create_sync_request(r2, d1.clone(), res.clone(), t0);
+            if req.from_replica != r1 || req.to_replica != r2 || req.requested_buckets != res || req.digest.root_hash != d1.root_hash { bad.push("create_sync_request fields".into()); }
+            if m1.should_sync(r2, t0 + 999) || !m1.should_sync(r2, t0 + 1000) { bad.push("should_sync boundary (interval 1000)".into()); }
+            if m1.peers_needing_sync(t0 + 999).contains(&r2) != dif || !m1.peers_needing_sync(t0 + 1000).contains(&r2) { bad.push("peers_needing_sync".into()); }
+            let resp = m2.handle_sync_request(req, &b0);
+            if resp.from_replica != r2 || resp.digest.root_hash != d2.root_hash || resp.digest.buckets != d2.buckets { bad.push("handle_sync_request response header".into()); }
+            if m2.divergent_peers.contains(&r1) != dif { bad.push("handle_sync_request did not record the requester's digest verdict".into()); }
+            let want = expected_keys(&b0, res.as_deref(), depth, limit);
+            deltas_oracle(&mut out, i, "handle_sync_request(requested buckets)", &b0, &resp.deltas, &want, r2);
+            // applying the response leaves the requester with the merge for every shipped key
+            let mut st = ShardReplicaState::new(r1, ConsistencyLevel::Eventual);
+            st.replicated_keys = a0.clone();
+            for d in resp.deltas.iter().cloned() { st.apply_remote_delta(d); }
+            for (k, v) in &st.replicated_keys {
+                let wantv = match (a0.get(k), b0.get(k)) {
+                    (Some(x), Some(y)) if want.contains(k) => x.merge(y),
+                    (Some(x), _) => x.clone(),
+                    (None, Some(y)) => y.clone(),
+                    _ => unreachable!(),
+                };
+                if obs(v) != obs(&wantv) { bad.push(format!("after applying the response key {:?} is not merge(local, shipped)", k)); break; }
+            }
+            if st.replicated_keys.len() != a0.len() + want.iter().filter(|k| !a0.contains_key(*k)).count() { bad.push("after applying the response: wrong key set".into()); }
+            let req2 = m1.create_sync_request(r2, d1.clone(), None, t0 + 1);
+            let resp2 = m2.handle_sync_request(req2, &b0);
+            let want2 = expected_keys(&b0, None, depth, limit);
+            deltas_oracle(&mut out, i, "handle_sync_request(all keys)", &b0, &resp2.deltas, &want2, r2);
+            m1.on_partition_healed(r2);
+            if !m1.divergent_peers.contains(&r2) || !m1.should_sync(r2, t0 + 2) { bad.push("on_partition_healed does not trigger an immediate sync".into()); }
+            if !bad.is_empty() {
+                out.violation(i, &format!("message API: {}", bad[0]), json!({"all": bad, "depth": depth, "limit": limit}));
+            }
+        }
 
         // occupancy: is there a bucket with at least two keys?
         let crowded = da.buckets.iter().chain(db.buckets.iter()).any(|b| b.count >= 2);
@@ -552,8 +796,25 @@ fn main() {
 
         // ---- one round on the real simulation
         let before = sim.anti_entropy_syncs;
-        sim.run_anti_entropy_sync(0, 1);
+        match rng.gen_range(0..5) {
+            0 => { out.count("entry:run_anti_entropy_sync(1,0)"); sim.run_anti_entropy_sync(1, 0); }
+            1 => { out.count("entry:heal_partition(0,1)"); sim.auto_anti_entropy = true; sim.partition(0, 1); sim.heal_partition(0, 1); sim.auto_anti_entropy = false; }
+            2 => { out.count("entry:heal_partition(1,0)"); sim.auto_anti_entropy = true; sim.partition(1, 0); sim.heal_partition(1, 0); sim.auto_anti_entropy = false; }
+            3 => { out.count("entry:run_full_anti_entropy"); sim.run_full_anti_entropy(); }
+            _ => { out.count("entry:run_anti_entropy_sync(0,1)"); sim.run_anti_entropy_sync(0, 1); }
+        }
         let fired = sim.anti_entropy_syncs != before;
+        // healing a link that was not partitioned, or with auto sync off, must not sync
+        {
+            let (x0, y0, n0) = (content(&sim.nodes[0].replica_state.replicated_keys), content(&sim.nodes[1].replica_state.replicated_keys), sim.anti_entropy_syncs);
+            sim.heal_partition(0, 1);
+            sim.partition(0, 1);
+            sim.heal_partition(0, 1);
+            if sim.anti_entropy_syncs != n0 || content(&sim.nodes[0].replica_state.replicated_keys) != x0 || content(&sim.nodes[1].replica_state.replicated_keys) != y0 {
+                out.violation(i, "heal_partition synced although auto_anti_entropy is off / no partition existed", json!({}));
+            }
+            if !sim.can_communicate(0, 1) { out.violation(i, "heal_partition left the link partitioned", json!({})); }
+        }
         let a1: Map = sim.nodes[0].replica_state.replicated_keys.clone();
         let b1: Map = sim.nodes[1].replica_state.replicated_keys.clone();
         let la2 = entries_term(&sim.nodes[0].replica_state.replicated_keys);
@@ -565,51 +826,7 @@ fn main() {
 
         // ---- O3: the round leaves both sides merged
         if fired && covering {
-            out.impl_checks += 1;
-            let keys: BTreeSet<&String> = a0.keys().chain(b0.keys()).collect();
-            let mut any_incompatible = false;
-            for k in keys {
-                let (x, y) = (a0.get(k), b0.get(k));
-                let bk = bucket_of_key(k, x.or(y).unwrap(), depth);
-                let (ea, eb): (Option<ReplicatedValue>, Option<ReplicatedValue>) = if dv.contains(&bk) {
-                    match (x, y) {
-                        (Some(x), Some(y)) => (Some(x.merge(y)), Some(y.merge(x))),
-                        (Some(x), None) => (Some(x.clone()), Some(x.clone())),
-                        (None, Some(y)) => (Some(y.clone()), Some(y.clone())),
-                        _ => unreachable!(),
-                    }
-                } else {
-                    (x.cloned(), y.cloned())
-                };
-                let got = (a1.get(k).map(obs), b1.get(k).map(obs));
-                let want = (ea.as_ref().map(obs), eb.as_ref().map(obs));
-                if got != want {
-                    out.violation(i, "after a covering sync round a key does not hold merge(prior A, prior B) (or an untouched key changed)",
-                        json!({"key": k, "bucket": bk, "divergent": dv, "a": x.map(obs), "b": y.map(obs), "got": [got.0, got.1], "want": [want.0, want.1]}));
-                    break;
-                }
-                // the two sides agree afterwards only if the prior values are Compatible (C07):
-                // equal LWW stamps on different registers keep "self" on each side
-                let incompatible = match (x.and_then(|v| v.lww()), y.and_then(|v| v.lww())) {
-                    (Some(p), Some(q)) => p.timestamp == q.timestamp && x.map(obs) != y.map(obs),
-                    _ => false,
-                };
-                if incompatible {
-                    any_incompatible = true;
-                    continue;
-                }
-                if dv.contains(&bk) && got.0 != got.1 {
-                    out.violation(i, "after a covering sync round the two sides differ on a key of a divergent bucket",
-                        json!({"key": k, "a": x.map(obs), "b": y.map(obs), "a_after": got.0, "b_after": got.1}));
-                    break;
-                }
-            }
-            if any_incompatible {
-                out.count("round:incompatible-pair (equal stamps, different strings)");
-            } else if da2.differs_from(&db2) || !da2.divergent_buckets(&db2).is_empty() {
-                out.violation(i, "a second digest exchange after a covering sync round still finds divergence",
-                    json!({"divergent_before": dv, "divergent_after": da2.divergent_buckets(&db2), "a_after": content(&a1), "b_after": content(&b1)}));
-            }
+            merged_oracle(&mut out, i, "round 1", &a0, &b0, &a1, &b1, &dv, depth, &da2, &db2);
         }
         if !fired && (a1.len() != a0.len() || content(&a1) != content(&a0) || content(&b1) != content(&b0)) {
             out.violation(i, "a round that did not fire changed a state", json!({}));
@@ -665,13 +882,82 @@ fn main() {
             }
         }
 
+        // ---- O7: history continues: local writes through SimulatedNode::execute, then
+        //      another digest exchange and round on the same nodes
+        if limit >= 1000 && rng.gen_bool(0.3) {
+            for _ in 0..rng.gen_range(1..5) {
+                let n = rng.gen_range(0..2usize);
+                let key = key_name(rng.gen_range(0..nkeys + 2));
+                let cmd = if rng.gen_bool(0.8) {
+                    let val: Vec<u8> = if rng.gen_bool(0.1) { longval(LENS[rng.gen_range(0..LENS.len())], rng.gen()) } else { VALS[rng.gen_range(0..VALS.len())].to_vec() };
+                    Command::set(key, SDS::new(val))
+                } else {
+                    Command::del(key)
+                };
+                sim.nodes[n].execute(&cmd);
+            }
+            let (a2, b2): (Map, Map) = (sim.nodes[0].replica_state.replicated_keys.clone(), sim.nodes[1].replica_state.replicated_keys.clone());
+            let (x, y) = (sim.nodes[0].generate_digest(), sim.nodes[1].generate_digest());
+            digest_fields_oracle(&mut out, i, "digest A after local writes", &a2, &x, sim.nodes[0].replica_id, sim.nodes[0].anti_entropy.generation, depth);
+            digest_oracle(&mut out, i, "after local writes", &a2, &b2, &x, &y);
+            let d2 = x.divergent_buckets(&y);
+            let cov2 = keys_in(&a2, &d2, depth) <= limit && keys_in(&b2, &d2, depth) <= limit;
+            let n0 = sim.anti_entropy_syncs;
+            sim.run_anti_entropy_sync(0, 1);
+            let fired2 = sim.anti_entropy_syncs != n0;
+            out.impl_checks += 1;
+            if fired2 != (x.differs_from(&y) && !d2.is_empty()) {
+                out.violation(i, "round after local writes: fired iff the digests differ and a bucket diverges", json!({"fired": fired2, "differs": x.differs_from(&y), "divergent": d2}));
+            }
+            let (a3, b3): (Map, Map) = (sim.nodes[0].replica_state.replicated_keys.clone(), sim.nodes[1].replica_state.replicated_keys.clone());
+            let (x3, y3) = (sim.nodes[0].generate_digest(), sim.nodes[1].generate_digest());
+            if fired2 && cov2 {
+                merged_oracle(&mut out, i, "round after local writes", &a2, &b2, &a3, &b3, &d2, depth, &x3, &y3);
+            }
+            digest_oracle(&mut out, i, "after the round that followed local writes", &a3, &b3, &x3, &y3);
+            out.count("history:writes-then-second-round");
+        }
+
+        // ---- O6: three replicas of an LWW-only history, run_full_anti_entropy (all pairs):
+        //      all three end with the key-wise merge of the three states
+        if let Some((m0, m1)) = first_two {
+            out.impl_checks += 1;
+            let mut s3 = MultiNodeSimulation::new_without_anti_entropy(3, args.seed ^ i ^ 0x33);
+            let d3 = depth.min(8);
+            for (n, m) in [m0.clone(), m1.clone(), third.clone()].into_iter().enumerate() {
+                s3.nodes[n].replica_state.replicated_keys = m;
+                s3.nodes[n].anti_entropy.config.merkle_tree_depth = d3;
+            }
+            s3.run_full_anti_entropy();
+            let mut want: BTreeMap<String, ReplicatedValue> = BTreeMap::new();
+            for m in [&m0, &m1, &third] {
+                for (k, v) in m {
+                    let nv = match want.get(k) { Some(w) => w.merge(v), None => v.clone() };
+                    want.insert(k.clone(), nv);
+                }
+            }
+            let wantc: BTreeMap<String, String> = want.iter().map(|(k, v)| (k.clone(), obs(v))).collect();
+            for n in 0..3 {
+                if content(&s3.nodes[n].replica_state.replicated_keys) != wantc {
+                    out.violation(i, "run_full_anti_entropy over three LWW-only replicas: a node does not hold the key-wise merge of the three states", json!({"node": n, "want": wantc, "got": content(&s3.nodes[n].replica_state.replicated_keys)}));
+                    break;
+                }
+            }
+            let ds: Vec<StateDigest> = s3.nodes.iter().map(|n| n.generate_digest()).collect();
+            if ds[0].differs_from(&ds[1]) || ds[1].differs_from(&ds[2]) || !ds[0].divergent_buckets(&ds[2]).is_empty() {
+                out.violation(i, "run_full_anti_entropy over three replicas: digests still differ", json!({}));
+            }
+            out.count("three-nodes:run_full_anti_entropy");
+        }
+
         let term = format!(
-            "(KS {} {} {} {} {} {} {} {} {} {} {} {} {} {} {})",
+            "(KS {} {} {} {} {} {} {} {} {} {} {} {} {} {} {} {} {} {})",
             depth, limit, la, lb, digest_term(&da), digest_term(&db), cbool(dif),
             clist(dv.iter(), |x| x.to_string()),
             clist(sa.iter(), |d| key_sym(&d.key)),
             clist(sb.iter(), |d| key_sym(&d.key)),
-            cbool(fired), la2, lb2, digest_term(&da2), digest_term(&db2)
+            cbool(fired), la2, lb2, digest_term(&da2), digest_term(&db2),
+            depth2, clist(dvx.iter(), |x| x.to_string()), clist(dvy.iter(), |x| x.to_string())
         );
         let canon = format!("{:?}|{:?}|{}|{}", content(&a0), content(&b0), depth, limit);
         let nontrivial = !a0.is_empty() && !b0.is_empty() && crowded;
